@@ -78,6 +78,53 @@ def scan_callers(repo, method, allowed, what):
     return dict(status="ok", obligation=ob, detail="")
 
 
+def scan_ram_writers_refresh(repo):
+    """C08 frame obligation: RAM may be written behind the bus only by functions that afterwards
+    re-establish the screen shadow (refresh_memory_dependent_devices)"""
+    import glob, sys
+    sys_path = os.path.join(VERIF, "vx")
+    if sys_path not in sys.path:
+        sys.path.insert(0, sys_path)
+    from rustlex import mask, match_close
+    ob = "scan::every user of ram_page_data_mut/force_write calls refresh_memory_dependent_devices afterwards"
+    bad, seen = [], 0
+    for path in glob.glob(os.path.join(repo, "rustzx-core/src", "**", "*.rs"), recursive=True):
+        if path.endswith("zx/memory.rs"):
+            continue
+        src = open(path).read()
+        msk = mask(src)
+        for m in re.finditer(r"\.\s*(ram_page_data_mut|force_write)\s*\(", msk):
+            seen += 1
+            fns = [x for x in re.finditer(r"\bfn\s+(\w+)", msk[:m.start()])]
+            if not fns:
+                continue
+            f = fns[-1]
+            b = msk.find("{", f.end())
+            e = match_close(msk, b)
+            rest = msk[m.end():e]
+            if "refresh_memory_dependent_devices" not in rest:
+                # helper functions whose every caller refreshes are accepted one level up
+                name = f.group(1)
+                callers_ok = True
+                ncall = 0
+                for c in re.finditer(r"\b" + re.escape(name) + r"\s*\(", msk):
+                    if c.start() == f.start(1):
+                        continue
+                    ncall += 1
+                    cf = [x for x in re.finditer(r"\bfn\s+(\w+)", msk[:c.start()])][-1]
+                    cb = msk.find("{", cf.end())
+                    ce = match_close(msk, cb)
+                    if "refresh_memory_dependent_devices" not in msk[c.end():ce]:
+                        callers_ok = False
+                if not (ncall and callers_ok):
+                    bad.append("%s::%s" % (os.path.relpath(path, repo), name))
+    if seen == 0:
+        return dict(status="undecided", obligation=ob, detail="no RAM writer found (lost anchor)")
+    if bad:
+        return dict(status="fail", obligation=ob, detail="RAM written behind the bus without refreshing the screen shadow in: %s" % sorted(set(bad)))
+    return dict(status="ok", obligation=ob, detail="")
+
+
 def scan_remap_callers(repo):
     return scan_callers(repo, "remap", {"rustzx-core/src/zx/controller.rs::write_7ffd"},
                         "the memory map may only be changed by the paging latch")
@@ -140,6 +187,15 @@ K_INPUT = dict(name="K-core::input", package="rustzx-core", features="full",
                assumptions=CORE_ASSUME + ["libm::sqrt stubbed while constructing the controller (AY pan gains only)"])
 
 PROPS = {
+    "C08": dict(
+        level="proof",
+        claim="Deductive proof (Verus): the address helpers are the inverse of the statement's offset formula (bijection lemma); ZXScreen::update changes exactly the shadow cell whose display offset is written; process_clocks draws exactly the blocks the beam passed since the previous call, each pixel = bit 7-(x mod 8) coloured by ink/paper/BRIGHT/FLASH of its attribute (nested loop invariants over a ghost pixel map); new_frame delivers the back buffer and toggles the flash phase every 16 frames; lemmas: a bus write keeps shadow == RAM (invariant K), a full pass over an unchanged shadow yields the standard decode of RAM. write_internal forwards every RAM write through any window to the screen (ghost call log); a syntactic frame obligation requires every behind-the-bus RAM writer to refresh the shadow.",
+        note="Assumes host FrameBuffer contract; Box<[T;N]> treated as the owned array; the composition over a frame (K maintained by every writer + process_clocks called with the frame clock from wait_internal + switch_bank selecting bank 5/7) is argued from these contracts, not a single mechanised theorem. Error paths of loaders (partial page write then Err) are not covered. One defect repaired (pokes bypassed the shadow).",
+        verus=["screen", "ctl"],
+        kani=[K_MACHINE],
+        scans=[scan_ram_writers_refresh],
+        explanation="screen decode: leaf inverses, update/process_clocks/new_frame contracts over ghost pixel maps, invariant K lemmas",
+    ),
     "C09": dict(
         level="proof",
         claim="Deductive proof (Verus, all T-states, all write sequences by per-call contracts): next_border_pixel is within 16 px (the statement's tolerance) of the beam position defined by 2 px/T, 224/228 T per line and first picture pixel at 14336/14362; set_border paints exactly the pixels the beam passed since the previous write with the previous colour and nothing else; new_frame completes the frame with the last colour and repaints everything when no write happened; set_border_color / the ULA arm of write_io make the reported border colour the low three bits of the written byte.",
